@@ -4,10 +4,14 @@ Invariant check on the live imported objects: complete over all types x classes
 and all categories in both port tables (whatever members exist at run time).
 """
 
+import asyncio
 import dataclasses
 from itertools import combinations
 
+from .. import env, gen, tcpwork
+from ..fakes import udp
 from ..prop import Prop
+from ..ref import broadcast as rb
 
 CLASS_CATEGORY = {
     "SwitcherPowerPlug": "POWER_PLUG",
@@ -23,7 +27,8 @@ class C19(Prop):
     id = "C19"
     level = "exploration"
     technique = "exhaustive invariant check over the live enum members, device classes and port tables"
-    rule = ("every (device type, device class) pair is constructed for real (accept iff categories match); every type's model "
+    rule = ("checked twice: on the fresh import and again after a workload (bridge on default/new-firmware/custom ports hearing all 9 types, "
+            "both API classes used); every (device type, device class) pair is constructed for real (accept iff categories match); every type's model "
             "code / protocol type / category is inspected; every unordered pair of types is compared for code uniqueness; every "
             "category is looked up in both port tables; each evaluation is distinct by construction")
     level_text = ("Finite space enumerated completely on every run (exhaustive: true): all live DeviceType members x 4 classes, "
@@ -32,7 +37,7 @@ class C19(Prop):
     assumptions = ["class-to-category table and port numbers as written in the statement"]
     anchors = ["aioswitcher.device:SwitcherWaterHeater.__post_init__", "aioswitcher.device:SwitcherShutter.__post_init__",
                "aioswitcher.device:SwitcherThermostat.__post_init__", "aioswitcher.device:SwitcherPowerPlug.__post_init__"]
-    min_evaluations = {"quick": 60, "thorough": 60}
+    min_evaluations = {"quick": 120, "thorough": 120}
     exhaustive = {"quick": True, "thorough": True}
     nshards = {"quick": 1, "thorough": 1}
 
@@ -44,9 +49,51 @@ class C19(Prop):
         self.api, self.bridge, self.device = api, bridge, device
 
     def cases(self, tier, seed, shard, nshards):
-        yield {"kind": "constructors"}
-        yield {"kind": "types"}
-        yield {"kind": "ports"}
+        # the invariants are checked on the freshly imported objects, then again after the library has been used
+        for phase in ("fresh", "after-workload"):
+            if phase == "after-workload":
+                yield {"kind": "workload", "seed": seed}
+            yield {"kind": "constructors", "phase": phase}
+            yield {"kind": "types", "phase": phase}
+            yield {"kind": "ports", "phase": phase}
+
+    async def _workload(self, case, acc):
+        """Ordinary use between the two invariant passes: a bridge hearing every device type on classic,
+        new-firmware and custom ports, and both API classes talking to a device."""
+        r = env.rng("C19", case["seed"])
+        rig = udp.UdpRig(0)
+        loop = asyncio.get_running_loop()
+        rig.install(loop)
+        try:
+            default_ports = [20002, 10002, 20003, 10003]
+            port_sets = [rig.free_ports(2)]
+            if all(udp.can_bind(p) for p in default_ports):
+                port_sets.insert(0, None)   # the library's own defaults (free inside the private network namespace)
+            for ports in port_sets:
+                bridge = self.bridge.SwitcherBridge(rig.log.callback) if ports is None else self.bridge.SwitcherBridge(rig.log.callback, ports)
+                use = default_ports if ports is None else ports
+                async with bridge:
+                    for p in use:
+                        for j, model in enumerate(gen.MODELS):
+                            d = gen.broadcast_desc(r, model, r.randrange(10 ** 6), f"{(j + 1) * 7919 % 0xEFFFFF:06x}")
+                            rig.send(p, rb.encode(d))
+                        if await rig.barrier(p) != "ok":
+                            acc.inconclusive_because("workload: sentinel not delivered")
+                acc.count("workload_broadcasts", 9 * len(use))
+            acc.count("workload_devices_delivered", sum(1 for k, _ in rig.log.events if k == "device"))
+        finally:
+            rig.uninstall(loop)
+        trig = tcpwork.Rig(0)
+        dev = await trig.device()
+        try:
+            for t, op_list in ((1, ["get_state", "turn_on", "get_schedules"]), (2, ["get_breeze_state", "stop", "get_shutter_state"])):
+                cl = await trig.connect(dev, t, "a1b2c3", "18")
+                for op in op_list:
+                    await cl.run(op, {"minutes": 0} if op == "turn_on" else {})
+                    acc.count("workload_tcp_operations")
+                await cl.close()
+        finally:
+            await trig.close()
 
     def _args_for(self, cls, dtype):
         dv = self.device
@@ -60,10 +107,24 @@ class C19(Prop):
         }
         return {f.name: vals[f.name] for f in dataclasses.fields(cls) if f.init}
 
-    def run_case(self, case, acc, ctx):
+    async def run_case(self, case, acc, ctx):
         dv = self.device
         types = list(dv.DeviceType)
         kind = case["kind"]
+        if kind == "workload":
+            await self._workload(case, acc)
+            return
+        real_violation = acc.violation
+        phase = case.get("phase", "fresh")
+        if phase != "fresh":
+            acc.violation = lambda mech, summary, detail=None, case=None: real_violation(
+                f"{mech}:after-use", summary + " (after the library had been used; it held on the fresh import)", detail, case)
+        try:
+            self._invariants(case, acc, dv, types, kind)
+        finally:
+            acc.violation = real_violation
+
+    def _invariants(self, case, acc, dv, types, kind):
         if kind == "constructors":
             for cname, cat in CLASS_CATEGORY.items():
                 cls = getattr(dv, cname)
